@@ -272,11 +272,41 @@ package node
 //@   modifies LbankPresent, LbankAmt, LbankUsed, LbankReq
 //@   ensures !isRejectErr(result)
 //@
-//@ func (*Pegnetd).ApplyFactoidBlock
-//@   trusted
-//@   modifies Lbal, Lsupply
+//@ // ---- FCT burns (C11 C04 C08): only a factoid transaction with exactly one FCT input, no FCT output and exactly one
+//@ // EC output of amount 0 to the burn address is a burn; each burn credits exactly its input amount of pFCT to its input address
+//@ spec func isBurn(t factom.FactoidTransaction) bool =
+//@     len(t.ECOutputs) == 1 && len(t.FCTInputs) == 1 && len(t.FCTOutputs) == 0 && t.ECOutputs[0].Address == BurnRCD && t.ECOutputs[0].Amount == 0
+//@ spec func burnsCredited(b map[factom.FAAddress]map[int]int, bs []factom.FactoidTransaction, n int) map[factom.FAAddress]map[int]int =
+//@     n <= 0 ? b : credit(burnsCredited(b, bs, n - 1), bs[n - 1].FCTInputs[0].Address, fat2.PTickerFCT, bs[n - 1].FCTInputs[0].Amount)
+//@ spec func burnsTotal(bs []factom.FactoidTransaction, n int) int = n <= 0 ? 0 : burnsTotal(bs, n - 1) + bs[n - 1].FCTInputs[0].Amount
+//@
+//@ // factom client (trusted): both decoders fill the receiver with slices they allocate
+//@ extern func (*github.com/Factom-Asset-Tokens/factom.FBlock).Get
+//@   modifies *fb
+//@   ensures !isRejectErr(err)
+//@   ensures err == nil ==> len(fb.Transactions) == 0 || fresh(fb.Transactions)
+//@ extern func (*github.com/Factom-Asset-Tokens/factom.FactoidTransaction).Get
+//@   modifies *f
 //@   ensures !isRejectErr(result)
-//@   ensures result == nil ==> balNonNeg(Lbal)
+//@   ensures result == nil ==> (len(f.FCTInputs) == 0 || fresh(f.FCTInputs)) && (len(f.FCTOutputs) == 0 || fresh(f.FCTOutputs)) && (len(f.ECOutputs) == 0 || fresh(f.ECOutputs))
+//@
+//@ func (*Pegnetd).ApplyFactoidBlock
+//@   props C11 C04 C08
+//@   requires @wellformed d.Pegnet != nil && dblock != nil
+//@   requires @nonneg balNonNeg(Lbal)
+//@   modifies Lbal, Lsupply
+//@   ensures @error_is_not_a_reject_code !isRejectErr(result)
+//@   ensures @never_negative result == nil ==> balNonNeg(Lbal)
+//@   ensures @pfct_only result == nil ==> (forall a factom.FAAddress, t int :: t != fat2.PTickerFCT ==> Lbal[a][t] == old(Lbal)[a][t]) && (forall t int :: t != fat2.PTickerFCT ==> Lsupply[t] == old(Lsupply)[t])
+//@   loop 1 invariant @range 0 <= iter && iter <= len(fblock.Transactions) && (len(fblock.Transactions) == 0 || fresh(fblock.Transactions))
+//@   loop 1 preserves old
+//@   loop 2 preserves old
+//@   loop 1 invariant @only_burns_collected (len(burns) == 0 || (fresh(burns) && !sameobj(burns, fblock.Transactions))) && (forall j int :: 0 <= j && j < len(burns) ==> isBurn(burns[j]))
+//@   loop 1 invariant @ledger_untouched Lbal == old(Lbal) && Lsupply == old(Lsupply)
+//@   loop 2 invariant @range 0 <= iter && iter <= len(burns)
+//@   loop 2 invariant @credited Lbal == burnsCredited(old(Lbal), burns, iter) && balNonNeg(Lbal) && (forall a factom.FAAddress, t int :: t != fat2.PTickerFCT ==> Lbal[a][t] == old(Lbal)[a][t])
+//@   loop 2 invariant @supply Lsupply == upd(old(Lsupply), fat2.PTickerFCT, old(Lsupply)[fat2.PTickerFCT] + burnsTotal(burns, iter))
+//@   loop 2 invariant @only_burns forall j int :: 0 <= j && j < len(burns) ==> isBurn(burns[j])
 //@
 //@ func (*Pegnetd).SyncBlock
 //@   props C02 C07 C10 C12 C14 C15
